@@ -603,6 +603,14 @@ func hasTimerPolarity(v ssa.Value, timerField *types.Var, depth int) (bool, bool
 		if (x.Op == token.NEQ || x.Op == token.EQL) && core.IsNilConst(x.Y) && isFieldLoad(x.X, timerField) {
 			return x.Op == token.NEQ, true
 		}
+		// the timer handed over as a parameter (`func resetTimer(t *time.Timer, d time.Duration)`)
+		if (x.Op == token.NEQ || x.Op == token.EQL) && core.IsNilConst(x.Y) {
+			if prm, ok := x.X.(*ssa.Parameter); ok {
+				if pt, ok := prm.Type().(*types.Pointer); ok && core.TypePkgPath(pt.Elem()) == "time" && core.TypeName(pt.Elem()) == "Timer" {
+					return x.Op == token.NEQ, true
+				}
+			}
+		}
 	case *ssa.UnOp:
 		if x.Op == token.NOT {
 			h, ok := hasTimerPolarity(x.X, timerField, depth)
